@@ -5,23 +5,34 @@ import json, os, re, shutil, subprocess, sys, glob
 src = sys.argv[1] if len(sys.argv) > 1 else "/tmp/seed/out"
 suffix = sys.argv[2] if len(sys.argv) > 2 else ""
 skips = {
-    "": {"C01/m1": "obsolete: it moved Mul's `d.Negative = neg` behind Mul's own setExponent call (the subnormal rounding then used the destination's previous sign); that call is gone since the fix 'Mul checks the exponent range after rounding, not before', and ported to the new Mul (sign set after the rounding) the same slip fails 30 tests of the pinned suite (it was detected by C01.R1/C06.R1 while it applied)",
+    "": {"C04/m1": "no longer demonstrable: it hoisted Ln's per-iteration error test out of the power-series loop, which spun for ever once a step had trapped under the caller's traps; since the fix 'the inner steps of Sqrt, Ln and Exp are not subject to the caller's exponent range and traps' no step traps for an operand inside the limits and the demonstration returns; the loop is still reported by C04.R4 (kept in the self-test as exseed_C04_m1)",
+            "C11/m1": "obsolete: it stopped widening Sqrt's working precision to the operand's digit count, which made the rounded iterate wrong just past a midpoint; since the fixes 'Sqrt locates the root exactly' the iterate is only the starting point of an exact location against the whole operand and the edit is behaviour-preserving (kept as the benign variant benign_agent8_C11_m1; it was detected by C11.R1 while it broke the property)",
+            "C01/m1": "obsolete: it moved Mul's `d.Negative = neg` behind Mul's own setExponent call (the subnormal rounding then used the destination's previous sign); that call is gone since the fix 'Mul checks the exponent range after rounding, not before', and ported to the new Mul (sign set after the rounding) the same slip fails 30 tests of the pinned suite (it was detected by C01.R1/C06.R1 while it applied)",
             "C04/m2": "obsolete: it skipped SetString's final rounding at Precision 0, which let exponents below MinExponent through only because setExponent checked each term separately; after the fix 'the exponent limits apply to the sum of the exponent terms' the parsing step's own range check is complete and the change is behaviour-preserving (kept as the benign variant benign_agent5_C04_m2; it was detected by C01.R3 while it broke the property)",
          "C14/m1": "manifests only for exponents beyond the package limits (MaxInt32), outside the property's domain",
          "C05/m2": "obsolete: it mutated Cbrt's exactness test (operand copy z0), which the fix 'Cbrt finds exact roots in every rounding mode' replaced; it was detected by C05.R1 while it applied",
          "C11/m2": "obsolete: it mutated Cbrt's exactness test (operand copy z0), which the fix 'Cbrt finds exact roots in every rounding mode' replaced; it was detected by C05.R1/C11.R2 while it applied"},
-    "-r2": {"C06/m1": "obsolete: it moved Mul's `d.Negative = neg` behind Mul's own setExponent call (the subnormal rounding then used the destination's previous sign); that call is gone since the fix 'Mul checks the exponent range after rounding, not before', and ported to the new Mul (sign set after the rounding) the same slip fails 30 tests of the pinned suite (it was detected by C01.R1/C06.R1 while it applied)",
+    "-r2": {"C02/m1": "obsolete: it capped Sqrt's working precision at twice the target precision; behaviour-preserving since Sqrt locates the root exactly against the whole operand (kept as the benign variant benign_agent8_C02_m1_r2; it was never detected — numeric)",
+            "C08/m2": "no longer demonstrable: it stored only Form = Infinite for Mul's infinite result, leaving the destination's coefficient and exponent inside the infinity; the demonstration went through a later rounding of that infinity, which passes infinities through unchanged since the fix 'Rounder.Round passes infinities and NaNs through unchanged'; the leftover fields are still visible in the exported Coeff/Exponent and the store is still reported by C06.R2 (kept in the self-test as exseed_C08_m2_r2)",
+            "C11/m1": "obsolete: it dropped the half-even store on Sqrt's working context so that the Newton steps rounded in the caller's mode, which biased the iterate and with it the result; since the fixes 'Sqrt locates the root exactly' and 'the inner steps of Sqrt, Ln and Exp are not subject to the caller's exponent range and traps' the iterate is only a starting point for the exact location and the working context is a copy of BaseContext: the edit is behaviour-preserving (kept as the benign variant benign_agent8_C11_m1_r2; it was detected by C11.R1 while it broke the property)",
+            "C06/m1": "obsolete: it moved Mul's `d.Negative = neg` behind Mul's own setExponent call (the subnormal rounding then used the destination's previous sign); that call is gone since the fix 'Mul checks the exponent range after rounding, not before', and ported to the new Mul (sign set after the rounding) the same slip fails 30 tests of the pinned suite (it was detected by C01.R1/C06.R1 while it applied)",
             
         "C04/m2": "obsolete for C04: it took Cbrt's working context from the caller, which made the range-reduction loop spin once the operand underflowed to zero; after the fix 'Cbrt works on the operand scaled to [1, 1000)' the loops run a handful of times whatever the context and the demonstration (a hang) no longer fails. The same edit still breaks C11 under narrow exponent ranges and is kept as seeded/C11-m1-r4 (identical patch); it was detected by C04.R4/C03.R6 while it applied",
         "C18/m2": "not confirmed: with the patch 3 stable baseline tests fail in this sandbox (the GDA runner shares one Context between goroutines)",
         "C04/m1": "manifests only for a target exponent of MaxInt32, outside the package limits (out of the property's domain)",
         "C17/m1": "manifests only for Exponent == MinInt32, outside the package limits (out of the property's domain)"},
-    "-r3": {},
-    "-r5": {"C20/m2": "obsolete: it moved Mul's `d.Negative = neg` behind Mul's own setExponent call (the subnormal rounding then used the destination's previous sign); that call is gone since the fix 'Mul checks the exponent range after rounding, not before', and ported to the new Mul (sign set after the rounding) the same slip fails 30 tests of the pinned suite (it was detected by C01.R1/C06.R1 while it applied)",
+    "-r3": {"C03/m2": "no longer demonstrable: it replaced Ln's last ErrDecimal step and error test by a direct call, losing an error recorded by a trapped Halley step; since the fix 'the inner steps of Sqrt, Ln and Exp are not subject to the caller's exponent range and traps' no step traps for an operand inside the limits; the dropped error test is still reported by C02.R3/C03.R5 (kept in the self-test as exseed_C03_m2_r3)",
+            "C12/m2": "no longer demonstrable: same edit as C03-m2-r3 (kept in the self-test as exseed_C12_m2_r3)",
+            "C03/m1": "obsolete: it cleared Inexact|Rounded in the traps of Sqrt's working context, which was a copy of the caller's and also made the closing error; since the fix 'the inner steps of Sqrt, Ln and Exp are not subject to the caller's exponent range and traps' the working context is a copy of BaseContext (which traps neither) and the closing goError uses the caller's context, so the edit is behaviour-preserving (kept as the benign variant benign_agent8_C03_m1_r3; it was detected by C03.R4 while it broke the property)"},
+    "-r5": {"C06/m1": "obsolete: it handled only SystemOverflow after Quo's setExponent; since the fix 'the lower package limit is on the adjusted exponent, not on the exponent' setExponent has no System-underflow return left and the edit is behaviour-preserving (kept as the benign variant benign_agent8_C06_m1_r5; it was detected by C06.R10 while it broke the property)",
+            "C03/m2": "obsolete: same edit as C03-m1-r3 (Sqrt's working context no longer carries the caller's traps; kept as the benign variant benign_agent8_C03_m2_r5; it was detected by C03.R4 while it broke the property)",
+            "C20/m1": "obsolete: it cleared Overflow after the infinity had been stored in exponentLimit (an Infinity with Inexact only); ported to today's tree the same slip fails 17 tests of the pinned suite, which reach exponentLimit since Round discards any number of digits and the lower package limit is on the adjusted exponent (it was detected by C02.R6 while it survived)",
+            "C20/m2": "obsolete: it moved Mul's `d.Negative = neg` behind Mul's own setExponent call (the subnormal rounding then used the destination's previous sign); that call is gone since the fix 'Mul checks the exponent range after rounding, not before', and ported to the new Mul (sign set after the rounding) the same slip fails 30 tests of the pinned suite (it was detected by C01.R1/C06.R1 while it applied)",
             "C01/m1": "not confirmed: with the patch one stable baseline test (TestGDA/base/emax314) is skipped by the harness ('exponent out of range') instead of passed; the off-by-one at adjusted exponent == MaxExponent was detected by C04.R6 when tried",
             "C09/m1": "not confirmed: same off-by-one (exponent sum == MaxExponent), same stable test skipped instead of passed; detected by C04.R6/C13.R5 when tried",
             "C13/m1": "not confirmed: with the patch four stable baseline tests are skipped instead of passed; the use of the unresolved digit count was detected by C07.R8 when tried"},
-    "-r4": {"C01/m2": "obsolete: it skipped Mul's rounding pass for short coefficients 'because setExponent had already range checked'; Mul no longer calls setExponent itself (fix 'Mul checks the exponent range after rounding, not before'), and ported to the new Mul the same slip fails 71 tests of the pinned suite (it was detected by C01.R3 while it applied)",
+    "-r4": {"C03/m1": "obsolete: same edit as C03-m1-r3 (Sqrt's working context no longer carries the caller's traps; kept as the benign variant benign_agent8_C03_m1_r4; it was detected by C03.R4 while it broke the property)",
+            "C01/m2": "obsolete: it skipped Mul's rounding pass for short coefficients 'because setExponent had already range checked'; Mul no longer calls setExponent itself (fix 'Mul checks the exponent range after rounding, not before'), and ported to the new Mul the same slip fails 71 tests of the pinned suite (it was detected by C01.R3 while it applied)",
             "C05/m2": "obsolete: it moved QuoInteger's sign computation after the destination writes, which changed the result only through the sign stamped on the DivisionImpossible NaN (d.Set(decimalNaN) had cleared an aliased x.Negative); after the fix 'QuoInteger's DivisionImpossible result is NaN, not -NaN' that path returns before the sign is read and the change is behaviour-preserving (kept as the benign variant benign_agent5_C05_m2_r4; it was detected by C05.R1 while it broke the property)",
             "C11/m2": "obsolete: it mutated the exactness test of the old Cbrt tail; ported to the rewritten Cbrt (fix 'Cbrt is correctly rounded in every rounding mode') the same slip fails 9 tests of the pinned suite, so it is no longer a surviving mutant (it was detected by C11.R2 while it applied)",
             "C20/m2": "not confirmed on the tree as repaired in between: with the patch one stable baseline test no longer completes (it was detected by C04.R6 when tried)"},
